@@ -2,6 +2,8 @@
 
 package internal
 
+import "go/types"
+
 // Contracts checked by /verif/govc (see /verif/DESIGN.md). This file is compiled only with -tags verif.
 
 //@ func NewDumper
@@ -34,7 +36,7 @@ package internal
 
 //@ func Dumper.TypesTypeLit
 //@   props C11 C05
-//@   requires d != nil && d.namer != nil
+//@   requires d != nil && d.namer != nil && !spec_isAliasType(tpe)
 //@   assume typesutil.FromTType(tpe) != nil
 //@   assigns *
 //@   preserves pkg/gengo/snippet. pkg/gengo/internal.
@@ -50,6 +52,12 @@ package internal
 //@   preserves pkg/gengo/snippet. pkg/gengo/internal. except pkg/gengo/internal.ValueLitOpt.SubValue, pkg/gengo/internal.ValueLitOpt.OnInterface, pkg/gengo/internal.ValueLitOpt.OnNamedType
 //@   panics true
 //@   note frame only (C05): rendering a value literal - including the user callbacks OnNamedType / OnInterface it may call - stores nothing into snippet values or the dumper. What the text MEANS (C10) is not claimed.
+
+// Spec_dumperOK: a usable dumper - bound to a namer (exported for the contracts of package snippet).
+func Spec_dumperOK(d *Dumper) bool { return d != nil && d.namer != nil }
+
+// spec_isAliasType: t is an alias node (type A = B): its identifier is rendered through the namer, never through the type adaptor, which unwraps it.
+func spec_isAliasType(t types.Type) bool { _, ok := t.(*types.Alias); return ok }
 
 // ---- govc prelude: ghost helpers of the clause language (identical in every contracts_verif.go) ----
 
